@@ -169,6 +169,29 @@ pub fn suites(check: &str, thorough: bool) -> (Vec<SeqSuite>, String) {
         }
         "C12" => (
             vec![SeqSuite {
+                graph: true,
+                name: "c12-graph",
+                alphabet: {
+                    let mut a = Vec::new();
+                    for side in [Side::S, Side::R] {
+                        for c in [Conv::Clone, Conv::CloneOther, Conv::ToOther] {
+                            a.push(Op::NewHandle(side, c));
+                        }
+                        a.push(Op::DropHandle(side));
+                        a.push(Op::DropHandleUnwinding(side));
+                        a.push(Op::Close(side));
+                    }
+                    a.push(Op::TrySend);
+                    a.push(Op::TryRecv);
+                    a
+                },
+                depth: if thorough { 9 } else { 7 },
+                caps: vec![Cap::B(1)],
+                flavours: vec![(S, S), (A, A)],
+                class: Class::P,
+                ctor: S,
+                observe: true,
+            }, SeqSuite {
                 graph: false,
                     name: "c12-handles",
                 alphabet: {
@@ -194,6 +217,33 @@ pub fn suites(check: &str, thorough: bool) -> (Vec<SeqSuite>, String) {
         ),
         "C16" => (
             vec![
+                SeqSuite {
+                    graph: true,
+                    name: "c16-graph",
+                    alphabet: {
+                        let mut a = vec![Op::FSend(0), Op::FSend(1), Op::FRecv(2), Op::FStream(3)];
+                        for slot in 0..4u8 {
+                            a.push(Op::Poll(slot, 0));
+                            a.push(Op::Poll(slot, 1));
+                            a.push(Op::FDrop(slot));
+                        }
+                        a.extend([
+                            Op::StreamIsTerm(3),
+                            Op::MoveStream(3),
+                            Op::TrySend,
+                            Op::TryRecv,
+                            Op::Close(Side::S),
+                            Op::DropHandle(Side::S),
+                        ]);
+                        a
+                    },
+                    depth: if thorough { 9 } else { 7 },
+                    caps: vec![Cap::B(0), Cap::B(1)],
+                    flavours: vec![(A, A)],
+                    class: Class::DP,
+                    ctor: A,
+                    observe: false,
+                },
                 SeqSuite {
                     graph: false,
                     name: "c16-polls",
